@@ -203,3 +203,57 @@ theorem normalEq_of_minimiser (bs : LData) (d : Nat) (lam : Rat) (hlam : 0 ≤ l
   exact mul_self_eq_zero.mp this
 
 end SharkVerif.Trainers
+
+namespace SharkVerif.Trainers
+
+/-- with `λ > 0` and at least one data point the normal equations have at most one solution
+(the accumulated matrix is positive definite) -/
+theorem normalEq_unique (bs : LData) (d : Nat) (lam : Rat) (hlam : 0 < lam) (hne : bs.flatten ≠ []) (c : Nat)
+    (β β' : Nat → Rat) (h : NormalEq bs d lam c β) (h' : NormalEq bs d lam c β') :
+    ∀ i, i ≤ d → β i = β' i := by
+  let δ : Nat → Rat := fun j => β' j - β j
+  have hg := (normalEq_iff_gradient bs d lam c β).mp h
+  have he := objective_expansion bs d lam c β δ
+  have hf : (fun j => β j + δ j) = β' := by funext j; show β j + (β' j - β j) = β' j; ring
+  rw [hf] at he
+  have h0 : rsum (d + 1) (fun i => linregGradient bs d lam c β i * δ i) = 0 := by
+    rw [rsum_congr (g := fun _ => 0) (fun i hi => by rw [hg i (by omega)]; ring)]
+    exact rsum_zero_fun _
+  have hmin := minimiser_of_normalEq bs d lam hlam.le c β' h' β
+  have hq0 : linregQuad bs d lam δ = 0 :=
+    le_antisymm (by linarith) (linregQuad_nonneg bs d lam hlam.le δ)
+  unfold linregQuad at hq0
+  rw [bsum_eq_flatten] at hq0
+  have h1 : 0 ≤ lsum bs.flatten (fun p => predict d δ p.1 * predict d δ p.1) :=
+    lsum_nonneg (fun p _ => mul_self_nonneg _)
+  have h2 : 0 ≤ rsum d (fun j => δ j * δ j) := rsum_nonneg (fun j _ => mul_self_nonneg _)
+  have h3 : 0 ≤ lam * rsum d (fun j => δ j * δ j) := mul_nonneg hlam.le h2
+  have hS2 : rsum d (fun j => δ j * δ j) = 0 := by
+    have : lam * rsum d (fun j => δ j * δ j) = 0 := by linarith
+    rcases mul_eq_zero.mp this with h | h
+    · exact absurd h hlam.ne'
+    · exact h
+  have hS1 : lsum bs.flatten (fun p => predict d δ p.1 * predict d δ p.1) = 0 := by
+    rw [hS2] at hq0; linarith
+  have hδ : ∀ j, j < d → δ j = 0 := fun j hj =>
+    mul_self_eq_zero.mp (rsum_eq_zero_of_nonneg (f := fun j => δ j * δ j) (fun j _ => mul_self_nonneg _) hS2 j hj)
+  -- the bias: predict δ x = δ_d on any data point
+  obtain ⟨p, hp⟩ := List.exists_mem_of_ne_nil _ hne
+  have hpred : predict d δ p.1 = 0 :=
+    mul_self_eq_zero.mp (lsum_eq_zero_of_nonneg (f := fun p => predict d δ p.1 * predict d δ p.1)
+      (fun p _ => mul_self_nonneg _) hS1 p hp)
+  have hδd : δ d = 0 := by
+    unfold predict at hpred
+    rw [rsum_succ, rsum_congr (g := fun _ => 0) (fun j hj => by rw [hδ j hj]; ring), rsum_zero_fun] at hpred
+    simp [ext1] at hpred
+    exact hpred
+  intro i hi
+  have : δ i = 0 := by
+    rcases Nat.lt_or_eq_of_le hi with h | h
+    · exact hδ i h
+    · rw [h]; exact hδd
+  show β i = β' i
+  have : β' i - β i = 0 := this
+  linarith
+
+end SharkVerif.Trainers
